@@ -155,22 +155,24 @@ pub fn case_enum(f: &F, v: &V) -> Result<(), String> {
         }
     }
     // classification by both parsers
-    let s = f.e.format_narsese(&n);
+    // (the text of every public formatting route - each of them is "format(v)")
     let k = v.kind();
-    match ops::parse_enum(f, &s) {
-        Ok(p) if kind_of(&p) == k => {}
-        Ok(p) => return Err(format!("{s:?} is a {:?} but the enum parser classifies it as {:?}", k, kind_of(&p))),
-        Err(e) => return Err(format!("{s:?}: enum parser fails: {e}")),
-    }
-    match ops::parse_lex(f, &s) {
-        Ok(p) if kind_of(&p) == k => {}
-        Ok(p) => return Err(format!("{s:?} is a {:?} but the lexical parser classifies it as {:?}", k, kind_of(&p))),
-        Err(e) => return Err(format!("{s:?}: lexical parser fails: {e}")),
+    for s in crate::props::c01::format_routes(f, &n) {
+        match ops::parse_enum(f, &s) {
+            Ok(p) if kind_of(&p) == k => {}
+            Ok(p) => return Err(format!("{s:?} is a {:?} but the enum parser classifies it as {:?}", k, kind_of(&p))),
+            Err(e) => return Err(format!("{s:?}: enum parser fails: {e}")),
+        }
+        match ops::parse_lex(f, &s) {
+            Ok(p) if kind_of(&p) == k => {}
+            Ok(p) => return Err(format!("{s:?} is a {:?} but the lexical parser classifies it as {:?}", k, kind_of(&p))),
+            Err(e) => return Err(format!("{s:?}: lexical parser fails: {e}")),
+        }
     }
     // a sentence cast to a task prints so that it parses to a task with an empty budget
     if let Narsese::Sentence(sen) = &n {
         let task: Task = sen.clone().cast_to_task();
-        let txt = f.e.format_task(&task);
+        for txt in crate::props::c01::format_routes(f, &Narsese::Task(task.clone())) {
         match ops::parse_enum(f, &txt) {
             Ok(Narsese::Task(Task(s2, b))) => {
                 if !matches!(b, narsese::enum_narsese::Budget::Empty) {
@@ -188,25 +190,30 @@ pub fn case_enum(f: &F, v: &V) -> Result<(), String> {
             Ok(other) => return Err(format!("{txt:?}: lexical parser gives {other:?}, expected a task with an empty budget")),
             Err(e) => return Err(format!("{txt:?}: lexical parser fails: {e}")),
         }
+        }
     }
     Ok(())
 }
 
 pub fn case_lex(f: &F, x: &LN) -> Result<(), String> {
     laws::<_, _, narsese::lexical::Task>(x, &|a, b| a == b, &|t| t.budget.is_empty(), &|a| format!("{a:?}"))?;
-    let s = f.l.format_narsese(x);
-    match ops::parse_lex(f, &s) {
-        Ok(p) if kind_of(&p) == kind_of(x) => {}
-        Ok(p) => return Err(format!("{s:?} is a {:?} but the lexical parser classifies it as {:?}", kind_of(x), kind_of(&p))),
-        Err(e) => return Err(format!("{s:?}: lexical parser fails: {e}")),
+    // the text of every public formatting route (the inherent methods, the generic `format` entry point, the
+    // `FormatTo` trait on the wrapped and on the bare value)
+    for s in crate::props::c02::format_routes(f, x) {
+        match ops::parse_lex(f, &s) {
+            Ok(p) if kind_of(&p) == kind_of(x) => {}
+            Ok(p) => return Err(format!("{s:?} is a {:?} but the lexical parser classifies it as {:?}", kind_of(x), kind_of(&p))),
+            Err(e) => return Err(format!("{s:?}: lexical parser fails: {e}")),
+        }
     }
     if let LN::Sentence(sen) = x {
         let task: narsese::lexical::Task = sen.clone().cast_to_task();
-        let txt = f.l.format_task(&task);
-        match ops::parse_lex(f, &txt) {
-            Ok(LN::Task(t)) if t.budget.is_empty() && &t.sentence == sen => {}
-            Ok(other) => return Err(format!("lexical cast_to_task(sentence) prints as {txt:?}, which parses to {other:?}")),
-            Err(e) => return Err(format!("lexical cast_to_task(sentence) prints as {txt:?}, which does not parse: {e}")),
+        for txt in crate::props::c02::format_routes(f, &LN::Task(task.clone())) {
+            match ops::parse_lex(f, &txt) {
+                Ok(LN::Task(t)) if t.budget.is_empty() && &t.sentence == sen => {}
+                Ok(other) => return Err(format!("lexical cast_to_task(sentence) prints as {txt:?}, which parses to {other:?}")),
+                Err(e) => return Err(format!("lexical cast_to_task(sentence) prints as {txt:?}, which does not parse: {e}")),
+            }
         }
     }
     Ok(())
